@@ -103,6 +103,15 @@ def scenarios(sch):
         {'op': 'w'},
         {'op': 'call', 'path': ['Span', 'Events', 'At:0'], 'm': 'SetName', 'args': ['s:62']},
         {'op': 'w'}, {'op': 'f'}]))
+    # S12: frozen dictionary structs that are handed to the record again as the SAME object after they were
+    # written once (their modified marks are clear) while the writer's dictionaries have been reset, replacing a
+    # value whose attribute array is shorter: the elements beyond the common length are key/value lists
+    kvl = lambda s_: [6, [['6b', [1, s_]]]]
+    rr = lambda *vals: ['', [['61', [5, [kvl(v) for v in vals]]]], '0']
+    seq12 = [rr('70'), rr('70', '71'), rr('70', '72'), rr('70'), rr('70', '72'), rr('70', '71', '72'), rr('70'), rr('70', '71', '72')]
+    for md in (1, 0):
+        out.append(dict(id=f'S12-reused-frozen-grown-array-d{md}', root='Metrics', opts_extra={'maxdict': md, 'flags': 0 if md else 1},
+                        ops=sum(([{'op': 'set', 'v': b7(r), 'freeze': True, 'reuse': True}, {'op': 'w'}] for r in seq12), []) + [{'op': 'f'}]))
     # S11: long strings in a string dictionary (4 KiB, just above it, 64 KiB and more): a long value written
     # again is a reference, and so is every value admitted after it
     for n in (4096, 4097, 5000, 70001):
@@ -208,7 +217,7 @@ def gen_cases(sch, rng, tier, h=None, prop='C01'):
     for sc in scenarios(sch):
         for compr in (0, 1):
             cases.append(dict(id=sc['id'] + f'-c{compr}', root=sc['root'],
-                              opts={'compression': compr, 'flags': 0}, ops=sc['ops'], scenario=sc['id']))
+                              opts=dict({'compression': compr, 'flags': 0}, **sc.get('opts_extra', {})), ops=sc['ops'], scenario=sc['id']))
             stats['scenario_cases'] += 1
     return cases, stats
 
